@@ -788,6 +788,28 @@ func wrapRun(w *World) {
 	if _, err := conn.NewStream(context.Background(), &grpc.StreamDesc{ServerStreams: true, ClientStreams: true}, testproto.TestApi_ServerStream_FullMethodName); status.Code(err) != codes.Internal {
 		w.Violate("shape-mismatch", fmt.Sprintf("NewStream with a mismatched streaming shape returned %v, expected Internal", err), nil)
 	}
+	// ... and one more of the twelve (method, description) pairs that do not fit, chosen by the tape
+	{
+		type shape struct{ srv, cli bool }
+		methods := []struct {
+			name string
+			is   shape
+		}{{testproto.TestApi_Unary_FullMethodName, shape{false, false}}, {testproto.TestApi_ServerStream_FullMethodName, shape{true, false}},
+			{testproto.TestApi_ClientStream_FullMethodName, shape{false, true}}, {testproto.TestApi_BidiStream_FullMethodName, shape{true, true}}}
+		m := methods[w.Tape.Choose(4)]
+		var wrong []shape
+		for _, sh := range []shape{{false, false}, {true, false}, {false, true}, {true, true}} {
+			if sh != m.is {
+				wrong = append(wrong, sh)
+			}
+		}
+		sh := wrong[w.Tape.Choose(3)]
+		mctx, mcancel := context.WithCancel(context.Background())
+		if _, err := conn.NewStream(mctx, &grpc.StreamDesc{ServerStreams: sh.srv, ClientStreams: sh.cli}, m.name); status.Code(err) != codes.Internal {
+			w.Violate("shape-mismatch", fmt.Sprintf("NewStream of %s (server-streaming=%v client-streaming=%v) with a description saying server-streaming=%v client-streaming=%v returned %v, expected Internal", m.name, m.is.srv, m.is.cli, sh.srv, sh.cli, err), nil)
+		}
+		mcancel()
+	}
 }
 
 func firstWord(s string) string {
